@@ -185,6 +185,9 @@ def cases(seed: int, tier: str, want=("REQ", "RESP"), focus=None):
         for _ in range(n // 4):
             yield "REQ", rstr(r, bytes(range(256)), r.randrange(0, 40))
             yield "REQ", rstr(r, b"GET POST/ HTTP1.:\r\n?*ax", r.randrange(0, 40))
+        # Content-Length numerals at the edges of 1*DIGIT (gen/common.py): wide zero-padded values, near-digit bytes, the 2^64 edge
+        for v in cl_numeral_grid():
+            yield "REQ", b"POST /u HTTP/1.1\r\nHost: a\r\n" + r.choice([b"Content-Length", b"content-length"]) + b": " + v + b"\r\n\r\n"
         # every prefix of a rotating subset of well-formed heads
         for _ in range(20 if tier == "quick" else 400):
             w = gen_wf_request(r)
